@@ -140,6 +140,10 @@ pub struct SchemaDoc {
     pub defs: Vec<TypeDef>,
     /// explicit `schema { query: .. mutation: .. subscription: .. }`
     pub schema_block: Option<(Option<String>, Option<String>, Option<String>)>,
+    /// default values of input-object fields: (input type, field, GraphQL value text).  The library
+    /// documents no effect of them on the generated code; they are rendered into the schema text only.
+    #[serde(default)]
+    pub input_defaults: Vec<(String, String, String)>,
 }
 
 fn sdl_string(s: &str) -> String {
@@ -258,7 +262,8 @@ impl SchemaDoc {
                     let dir = if *one_of { " @oneOf" } else { "" };
                     o.push_str(&format!("input {}{} {{\n", name, dir));
                     for (n, t) in fields {
-                        o.push_str(&format!("  {}: {}\n", n, t.sdl()));
+                        let dv = self.input_defaults.iter().find(|(i, f, _)| i == name && f == n).map(|(_, _, v)| format!(" = {}", v)).unwrap_or_default();
+                        o.push_str(&format!("  {}: {}{}\n", n, t.sdl(), dv));
                     }
                     o.push_str("}\n\n");
                 }
@@ -371,7 +376,8 @@ impl SchemaDoc {
                     "possibleTypes": members.iter().map(|m| json!({"kind":"OBJECT","name":m,"ofType":null})).collect::<Vec<_>>()})),
                 TypeDef::Input { name, fields, one_of } => {
                     let mut v = json!({"kind":"INPUT_OBJECT","name":name,"description":null,"fields":null,
-                        "inputFields": fields.iter().map(|(n,t)| json!({"name":n,"description":null,"type":t.typeref(&kind_of),"defaultValue":null})).collect::<Vec<_>>(),
+                        "inputFields": fields.iter().map(|(n,t)| json!({"name":n,"description":null,"type":t.typeref(&kind_of),
+                            "defaultValue": self.input_defaults.iter().find(|(i, f, _)| i == name && f == n).map(|(_, _, v)| Value::String(v.clone())).unwrap_or(Value::Null)})).collect::<Vec<_>>(),
                         "interfaces":null,"enumValues":null,"possibleTypes":null});
                     if var.is_one_of {
                         v.as_object_mut().unwrap().insert("isOneOf".into(), Value::Bool(*one_of));
